@@ -39,7 +39,7 @@ def cacheJson (c : Cache) : Json :=
     ("uuid_to_name", Json.arr (c.uuidToName.map (fun e => Json.arr #[Json.num e.1, Json.str e.2])).toArray),
     ("cols", Json.arr (c.cols.map (fun e => Json.arr #[Json.num e.1, Json.str e.2.name, Json.str e.2.dtype.toText, Json.str (ftypeText e.2.ftype)])).toArray),
     ("partition_by", Json.arr (c.partitionBy.map (fun (u : Nat) => Json.num (u : Nat))).toArray),
-    ("limit", Json.num c.limit),
+    ("limit", match c.limit with | some l => Json.num (Lean.JsonNumber.fromInt l) | none => Json.null),
     ("group_by", Json.arr (c.groupBy.map (fun (u : Nat) => Json.num (u : Nat))).toArray),
     ("is_filtered", Json.bool c.isFiltered),
     ("backend", Json.str (backendText c.backend)),
